@@ -127,7 +127,7 @@ func newLockEngine(p *Prog, pkgs ...string) *lockEngine {
 	}
 	// initial entry: T for functions whose every caller is a plain in-scope call, {} otherwise
 	for _, fn := range e.fns {
-		edges := p.callersOf(fn)
+		edges := p.callersSeeThrough(fn)
 		if len(edges) == 0 || fn.Parent() != nil {
 			e.entry[fn] = lockset{}
 			continue
@@ -151,10 +151,10 @@ func newLockEngine(p *Prog, pkgs ...string) *lockEngine {
 		// Jacobi step: all new entries are computed from the same snapshot of `before`
 		next := map[*ssa.Function]lockset{}
 		for _, fn := range e.fns {
-			if _, fixed := e.entry[fn]; fixed && !e.top[fn] && (fn.Parent() != nil || len(p.callersOf(fn)) == 0) {
+			if _, fixed := e.entry[fn]; fixed && !e.top[fn] && (fn.Parent() != nil || len(p.callersSeeThrough(fn)) == 0) {
 				continue
 			}
-			edges := p.callersOf(fn)
+			edges := p.callersSeeThrough(fn)
 			var acc lockset
 			first := true
 			bottom := false
